@@ -406,7 +406,7 @@ func runC04(o Opts) error {
 	}
 	s.Extra["listener_datagrams_with_recover"] = delivered
 	if s.ReplayWants("listen-shutdown") {
-		listenStopChild(s)
+		listenStopChild(s, "crash")
 	}
 	return s.Close()
 }
